@@ -151,7 +151,34 @@ RleDecode(src, size) ==
               [out |-> <<>>, lit |-> 0], src)
   IN  IF st.lit = 0 /\ Len(st.out) = size THEN [ok |-> TRUE, out |-> st.out] ELSE [ok |-> FALSE, out |-> <<>>]
 
+\* The RLE layer as a code over the control-byte space 0..255 (round 4): every control byte cb means a run of
+\* RunLen(cb) bytes -- cb < 128: zeros, nothing follows; cb >= 128: that many literal bytes follow.  Both halves
+\* reach 128 (0x7F = 128 zeros, 0xFF = 128 literals).
+RunLen(cb)  == IF cb >= 128 THEN cb - 127 ELSE cb + 1
+RunIsLit(cb) == cb >= 128
+\* the control bytes of a stream (literal bytes are skipped)
+CtlBytes(src) ==
+  FoldLeft(LAMBDA s, x : IF s.lit > 0 THEN [s EXCEPT !.lit = @ - 1]
+                         ELSE [ctl |-> s.ctl \cup {x}, lit |-> IF x >= 128 THEN x - 127 ELSE 0],
+           [ctl |-> {}, lit |-> 0], src).ctl
+\* canonical (greedy) encoder: maximal runs of zero / non-zero bytes, each cut into pieces of at most 128
+RleFlush(b, s, i) == IF s.len = 0 THEN <<>>
+                     ELSE IF s.z THEN <<s.len - 1>> ELSE <<127 + s.len>> \o SubSeq(b, i - s.len, i - 1)
+RleEncode(b) ==
+  LET st == FoldLeft(LAMBDA s, i :
+                IF s.len > 0 /\ s.len < 128 /\ ((b[i] = 0) = s.z) THEN [s EXCEPT !.len = @ + 1]
+                ELSE [out |-> s.out \o RleFlush(b, s, i), z |-> (b[i] = 0), len |-> 1],
+              [out |-> <<>>, z |-> TRUE, len |-> 0], [i \in 1..Len(b) |-> i])
+  IN  st.out \o RleFlush(b, st, Len(b) + 1)
+
 \* the bsdiff40 image: 32-byte header, control triples, data block, extra block
+LE32(v) == <<v % 256, (v \div 256) % 256, (v \div 65536) % 256, (v \div 16777216) % 256>>
+LE64(v) == LE32(v) \o <<0, 0, 0, 0>>
+\* encoder side (forward seeks only): the image of a plan; Bsd0Image below is its inverse (MC_Ptch: ImageRoundTrip)
+ImageOf(ctrl, data, extra, newSize) ==
+  BSDIFF40 \o LE64(12 * Len(ctrl)) \o LE64(Len(data)) \o LE64(newSize)
+  \o FoldLeft(LAMBDA acc, t : acc \o LE32(t.add) \o LE32(t.mov) \o LE32(t.seek), <<>>, ctrl)
+  \o data \o extra
 Triple(img, o) == [add  |-> Nat32(img, o), mov |-> Nat32(img, o + 4),
                    seek |-> IF U32(img, o + 8).huge THEN 0 - U32(img, o + 8).v ELSE U32(img, o + 8).v]
 Bsd0Image(img) ==
